@@ -5,6 +5,7 @@ import (
 	"time"
 
 	"github.com/yandex/pandora/core"
+	"go.uber.org/atomic"
 )
 
 type CompositeConf struct {
@@ -53,14 +54,21 @@ type compositeSchedule struct {
 	rwMu      sync.RWMutex
 	scheds    []core.Schedule // At least once schedule. First schedule can be finished.
 	leftAfter []int           // Tokens leftBefore, if known exactly, or at least tokens leftBefore otherwise.
+	// started is set on Start or first Next call.
+	// Left MAY be called before Start, and must not start nested schedules in such case.
+	started atomic.Bool
 }
 
 func (s *compositeSchedule) Start(startAt time.Time) {
 	s.rwMu.Lock()
 	defer s.rwMu.Unlock()
+	s.started.Store(true)
 	s.scheds[0].Start(startAt)
 }
 func (s *compositeSchedule) Next() (tx time.Time, ok bool) {
+	if !s.started.Load() {
+		s.started.Store(true)
+	}
 	s.rwMu.RLock()
 	tx, ok = s.scheds[0].Next()
 	if ok {
@@ -114,6 +122,11 @@ func (s *compositeSchedule) Left() int {
 	if left == 0 {
 		if leftAfter >= 0 {
 			return leftAfter
+		}
+		if !s.started.Load() {
+			// Shifting to the next schedule requires current schedule finish time,
+			// which is undefined until start. So something unknown is still ahead.
+			return -1
 		}
 		// leftAfter was unknown, at schedule create moment.
 		// But now, it can be finished. Let's shift, and try one more time.
